@@ -606,7 +606,7 @@ fn exhaustive(pr: &PropRun) -> crate::engine::runner::LaneReport {
     rep
 }
 
-fn case_local(bytes: &[u8], sched_bytes: &[u8], ctx: &mut Ctx) -> Result<(), Fail> {
+pub fn case_local(bytes: &[u8], sched_bytes: &[u8], ctx: &mut Ctx) -> Result<(), Fail> {
     let mut src = Source::new(bytes);
     let case = decode(&mut src);
     ctx.case(&(&case, sched_bytes));
@@ -618,7 +618,7 @@ thread_local! {
 }
 static GLOBAL_LOG: std::sync::OnceLock<crate::doubles::Log> = std::sync::OnceLock::new();
 
-fn case_with_global(bytes: &[u8], sched_bytes: &[u8], ctx: &mut Ctx) -> Result<(), Fail> {
+pub fn case_with_global(bytes: &[u8], sched_bytes: &[u8], ctx: &mut Ctx) -> Result<(), Fail> {
     let mut src = Source::new(bytes);
     let case = decode(&mut src);
     ctx.case(&(&case, sched_bytes));
